@@ -454,3 +454,90 @@ Proof.
   eexists. eexists. split; [vm_compute; reflexivity|]. split; [vm_compute; reflexivity|].
   repeat split; vm_compute; reflexivity.
 Qed.
+
+(* ================================================================== (round 4) DISK builds: #copy, #static, merged function tags
+   Model/AllocDisk.v: what `compile_jmc` leaves in the output directory, given the files that were there (previous output,
+   #static folders, left-overs), the files of the #copy folder and the state handed to build(): deletion, make_cert, #copy,
+   the MERGED load / tick tag (read_func_tag drops every value of the pack's namespace; the copied tag wins over the kept one),
+   the tick clean-up, then every generated function and json.  `e : denv` ranges over every previous tree, every #copy tree,
+   every set of #static folders, with and without deletion; `c` over every namespace, both tag-folder spellings, every
+   #override / #link set and every jmc.txt name set.  Tie: harness/c07_disk.py + Run.C07.dsummary — the predicted tree must be
+   the tree read back from disk, for first builds and rebuilds into the same output. *)
+From JMCV Require Import Model.AllocDisk Proofs.AllocDisk.
+
+(* every file of the virtual build (both tags, every function, every json) is a file of the tree on disk:
+   nothing that #copy brings, and nothing that survives the deletion, takes the place of a generated file *)
+Theorem C07_disk_generated_present :
+  forall c e b st tree, dbuild c e b st = inr tree ->
+  forall files k, build c b st = inr files -> In k (keys files) -> dmem (disk_path k) tree = true.
+Proof. exact disk_generated_present. Qed.
+Print Assumptions C07_disk_generated_present.
+
+(* closure on disk: every own-namespace function call, schedule, `#tag`, function-tag entry and advancement reward of every
+   generated file names a file of the tree the build leaves behind *)
+Theorem C07_disk_closed :
+  forall c e b st tree, dbuild c e b st = inr tree ->
+  forall files, build c b st = inr files -> disc c b st = true -> disk_closedb c files tree = true.
+Proof. exact disk_closed. Qed.
+Print Assumptions C07_disk_closed.
+
+(* registration in the MERGED load tag: the file on disk holds exactly the values the user's tag file (the copied one, else the
+   one kept in the output) has outside the pack's namespace, followed by <ns>:<LOAD>; load_registered = <ns>:<LOAD> is a value
+   and no other value starts with `<ns>:`.  Hypothesis: no generated function / json is written onto a tag path. *)
+Theorem C07_disk_load_registered :
+  forall c e b st tree, dbuild c e b st = inr tree -> disk_tag_free c (gen_files c b st) = true ->
+  exists x lv, dget (load_path c) tree = Some (DTag x (lv ++ [load_loc c])) /\
+               merged_tag c e (load_path c) = TRVals x lv /\ load_registered c tree = true.
+Proof. exact disk_load_registered. Qed.
+Print Assumptions C07_disk_load_registered.
+
+(* the tick tag: with a non-empty tick function it is the merged tag followed by <ns>:<TICK>; without one, a tick tag that is
+   still on disk (copied, shielded by #static, left over) holds NO value of the pack's namespace — no dangling <ns>:<TICK> *)
+Theorem C07_disk_tick_registered :
+  forall c e b st tree, dbuild c e b st = inr tree -> disk_tag_free c (gen_files c b st) = true ->
+  forall h' f', assemble c b st = inr (h', f') ->
+    tick_registered c (tick_nonempty c h' f') tree = true /\
+    (tick_nonempty c h' f' = true ->
+       exists x tv, dget (tick_path c) tree = Some (DTag x (tv ++ [tick_loc c])) /\ merged_tag c e (tick_path c) = TRVals x tv).
+Proof. exact disk_tick_registered. Qed.
+Print Assumptions C07_disk_tick_registered.
+
+(* what the merge keeps: nothing of the pack's namespace, and only values of the tag file the user supplied *)
+Theorem C07_disk_merge_foreign :
+  forall c e p x vs, merged_tag c e p = TRVals x vs ->
+    forallb (fun v => negb (own_entry c v)) vs = true /\
+    (vs = [] \/ exists vs0, (dlast p (copied e) = Some (DTag x vs0) \/ dget p (e_prev e) = Some (DTag x vs0)) /\ vs = foreign c vs0).
+Proof. exact merged_keeps. Qed.
+Print Assumptions C07_disk_merge_foreign.
+
+(* The ORDER of the steps carries these theorems: the same build with #copy done after the generated files
+   (dbuild_copy_last, "user files win") leaves the copied load.json in place — <ns>:<LOAD> is not registered — and a copied
+   tick.json that names <ns>:<TICK> although the pack has no tick function. *)
+Definition dx_c : cfg := mkCfg (mkNames "mypack" "v" "i" "priv" "load" "tick" "st") false [] [] [].
+Definition dx_ops : list op := [ONew 0 []; OFSet "load" 0; ONew 1 ["say hi"]; OFSet "main" 1].
+Definition dx_b : bdata := mkB ["say loaded"] [] [] [] [] [] [] [] false.
+Definition dx_e : denv :=
+  mkDenv [("data/mypack/jmc.txt", DText "old"); ("data/mypack/function/gone.mcfunction", DText "say old");
+          ("data/minecraft/tags/function/load.json", DTag "{}" ["mypack:load"]); ("keep.txt", DText "k")]
+         true
+         (Some [("data/minecraft/tags/function/load.json", DTag "{}" ["other:init"]);
+                ("data/minecraft/tags/function/tick.json", DTag "{}" ["other:t"; "mypack:tick"]);
+                ("pack.png", DText "png")])
+         [].
+Theorem C07_disk_refuted_copy_last :
+  exists st tree, run dx_c dx_ops = Some st /\ dbuild_copy_last dx_c dx_e dx_b st = inr tree /\
+    disc dx_c dx_b st = true /\ disk_tag_free dx_c (gen_files dx_c dx_b st) = true /\
+    load_registered dx_c tree = false /\ tick_registered dx_c false tree = false.
+Proof. eexists. eexists. split; [vm_compute; reflexivity|]. repeat split; vm_compute; reflexivity. Qed.
+Print Assumptions C07_disk_refuted_copy_last.
+
+(* Non-vacuity: the same input under the real order — the old output is deleted, the copied tags are merged
+   (load: other:init + mypack:load; tick: the own entry is dropped, the pack has no tick function), keep.txt and pack.png stay. *)
+Example C07_disk_nonvacuous :
+  exists st tree, run dx_c dx_ops = Some st /\ dbuild dx_c dx_e dx_b st = inr tree /\
+    disc dx_c dx_b st = true /\ disk_tag_free dx_c (gen_files dx_c dx_b st) = true /\
+    dget (load_path dx_c) tree = Some (DTag "{}" ["other:init"; "mypack:load"]) /\
+    dget (tick_path dx_c) tree = Some (DTag "{}" ["other:t"]) /\
+    dmem "data/mypack/function/gone.mcfunction" tree = false /\ dmem "keep.txt" tree = true /\ dmem "pack.png" tree = true /\
+    dget "data/mypack/function/main.mcfunction" tree = Some (DText "say hi").
+Proof. eexists. eexists. split; [vm_compute; reflexivity|]. repeat split; vm_compute; reflexivity. Qed.
